@@ -457,7 +457,7 @@ def plane_card(sid, point, nrm):
     return {'id': sid, 'mn': 'p', 'params': nrm + [d], 'tr': None, 'bc': ''}
 
 
-def gen_deck(rng, style=None, force=None):
+def gen_deck(rng, style=None, force=None, twin=None):
     '''LAT=2 deck; every element of the FILL array gets its own universe (or 0,
     or the lattice's own universe). Returns (deck, meta).  `force` (0..4) fixes the
     placement variant and puts a 0 and an own-universe entry in the array (the
@@ -604,6 +604,64 @@ def gen_deck(rng, style=None, force=None):
     deck = {'title': 'C07 generated hexagonal lattice', 'cells': cells,
             'surfaces': surfaces, 'transforms': {}, 'materials': {},
             'data': []}
+    # a second LAT=2 cell bounded by the SAME plane cards listed in another
+    # admissible order (other first / third plane: other a1, a2), in its own
+    # universe, seen through a translated container: the index convention of
+    # each cell must follow ITS listing
+    twin_meta = None
+    if twin is None:
+        twin = style == 'planes' and force is None and rng.random() < 0.2
+    if twin and style == 'planes':
+        listing2 = gen.gen_listing(rng)
+        while listing2[0] == listing[0] and listing2[2] == listing[2]:
+            listing2 = gen.gen_listing(rng)
+        order = [listing.index(g) for g in listing2]
+        if has_caps:
+            order += [7, 6] if rng.random() < 0.5 else [6, 7]
+        lits2 = [lits[k] for k in order]
+        surfs2 = [surfs[k] for k in order]
+        vecs2 = gen.spec_vectors(hexa, listing2, surfs2)
+        while True:
+            ranges2 = [(rng.choice([-2, -1, 0]), rng.choice([0, 1, 2]))
+                       for _ in range(2)]
+            ranges2.append((rng.choice([-1, 0]), rng.choice([0, 1]))
+                           if has_caps else (0, 0))
+            n2 = 1
+            for lo, hi in ranges2:
+                n2 *= hi - lo + 1
+            if 3 <= n2 <= 12:
+                break
+        array2 = [40 + k for k in range(n2)]
+        shift = np.array([gen.clean(2 * radius + 3.0), 0.0, 0.0])
+        surfaces.append({'id': 901, 'mn': 's',
+                         'params': [gen.clean(v) for v in centre + shift]
+                         + [radius], 'tr': None, 'bc': ''})
+        cells.insert(-1, {'id': 5, 'mat': 0, 'rho': None, 'expr': S(-901),
+                          'imp': {'n': 1}, 'u': 0, 'lat': None,
+                          'fill': {'u': 2, 'tr': deckmod.make_tr(shift)},
+                          'trcl': None})
+        cells.insert(-1, {'id': 6, 'mat': 0, 'rho': None,
+                          'expr': ('*',) + tuple(lits2),
+                          'imp': {'n': 1}, 'u': 2, 'lat': 2,
+                          'fill': {'ranges': ranges2, 'array': array2,
+                                   'tr': None}, 'trcl': None,
+                          'lat_vectors': [[float(x) for x in v] for v in vecs2],
+                          'lat_centre': [float(x) for x in centre]})
+        for k, univ in enumerate(array2):
+            cells.insert(-1, {'id': 200 + 2 * k, 'mat': 0, 'rho': None,
+                              'expr': S(-910), 'imp': {'n': 1}, 'u': univ,
+                              'lat': None, 'fill': None, 'trcl': None})
+            cells.insert(-1, {'id': 201 + 2 * k, 'mat': 0, 'rho': None,
+                              'expr': S(910), 'imp': {'n': 1}, 'u': univ,
+                              'lat': None, 'fill': None, 'trcl': None})
+        cells[-1]['expr'] = ('*', S(900), S(901))
+        twin_meta = {'listing': listing2, 'ranges': ranges2,
+                     'vectors': [[float(x) for x in v] for v in vecs2],
+                     'centre': [float(x) for x in centre], 'radius': radius,
+                     'r_fill': r_fill,
+                     'container_centre': [float(x) for x in centre + shift],
+                     'move': {'O': [float(x) for x in shift],
+                              'R': np.eye(3).tolist()}}
     # the same prism placed through a coordinate transformation: the plane
     # cards written in an auxiliary frame (TRn on the cards), the lattice cell
     # moved by TRCL, or the lattice universe placed by a fill transformation
@@ -611,6 +669,8 @@ def gen_deck(rng, style=None, force=None):
     roll = rng.random()
     if force is not None:
         roll = [0.9, 0.05, 0.15, 0.25, 0.35][force]
+    if twin_meta is not None:
+        roll = 0.9
     if roll < 0.12 and style == 'planes':
         moved = 'surface-tr'
         trf = deckmod.random_tr(rng)
@@ -655,7 +715,7 @@ def gen_deck(rng, style=None, force=None):
             'array': array, 'vectors': [[float(x) for x in v] for v in vecs],
             'centre': [float(x) for x in centre], 'radius': radius,
             'r_fill': r_fill, 'caps': has_caps, 'moved': moved,
-            'move': move,
+            'move': move, 'twin': twin_meta,
             'tilt': bool(hexa['caps'] and hexa['caps']['tilt'])}
     return deck, meta
 
@@ -664,6 +724,7 @@ def deck_points(rng, meta, n_random):
     '''Sample points: uniform in the container, element centres (inside the
     filler sphere), points just across every element border.'''
     centre = np.array(meta['centre'])
+    cont = np.array(meta.get('container_centre', meta['centre']))
     vecs = [np.array(v) for v in meta['vectors']]
     radius = meta['radius']
     pts = []
@@ -672,7 +733,7 @@ def deck_points(rng, meta, n_random):
             q = np.array([rng.uniform(-1, 1) for _ in range(3)])
             if q @ q <= 1:
                 break
-        pts.append(centre + 0.98 * radius * q)
+        pts.append(cont + 0.98 * radius * q)
     ranges = meta['ranges']
     idx_ranges = [range(lo - 1, hi + 2) for lo, hi in ranges[:len(vecs)]]
     for idx in np.ndindex(*[len(r) for r in idx_ranges]):
@@ -689,8 +750,10 @@ def deck_points(rng, meta, n_random):
         origin = np.array(meta['move']['O'])
         rot = np.array(meta['move']['R'])
         pts = pts[:n_random] + [origin + rot @ p for p in pts[n_random:]]
-    return [p for p in pts
-            if np.linalg.norm(p - centre) < 0.995 * radius]
+    pts = [p for p in pts if np.linalg.norm(p - cont) < 0.995 * radius]
+    if meta.get('twin'):
+        pts += deck_points(rng, meta['twin'], n_random // 2)
+    return pts
 
 
 def check_deck(deck, meta, t4, points, eps=1e-6):
@@ -704,7 +767,7 @@ def check_deck(deck, meta, t4, points, eps=1e-6):
     ev = t4eval.Evaluator(t4, eps=eps)
     checked, failures = 0, []
     deck_ids = {c['id'] for c in deck['cells']}
-    lattice_id = next(c['id'] for c in deck['cells'] if c.get('lat'))
+    lattice_ids = {c['id'] for c in deck['cells'] if c.get('lat')}
     for p in points:
         try:
             chain = ref.locate(np.array(p, float))
@@ -735,7 +798,7 @@ def check_deck(deck, meta, t4, points, eps=1e-6):
             continue
         prov = geomcheck.parse_provenance(t4.volumes[owners[0]]['comment'])
         got = prov[0][0] if prov else owners[0]
-        if leaf == lattice_id:
+        if leaf in lattice_ids:
             # element filled with the lattice cell's own material: the
             # provenance names the generated copy of the lattice cell, never a
             # cell of the deck
@@ -1293,8 +1356,19 @@ def _run(res, tier, seed, proofs_ok):
     for num in range(n_decks):
         if deck_hangs >= 2:
             break
-        deck, meta = (gen_deck(rng, style='planes', force=num) if num < 5
-                      else gen_deck(rng))
+        if num < 5:
+            deck, meta = gen_deck(rng, style='planes', force=num)
+        elif num == 5:
+            # corpus deck (fixed): two LAT=2 cells bounded by the same plane
+            # cards listed in two different admissible orders
+            deck, meta = gen_deck(random.Random(70707), style='planes',
+                                  twin=True)
+        elif num == 6:
+            deck, meta = gen_deck(rng, style='planes', twin=True)
+        else:
+            deck, meta = gen_deck(rng)
+        if meta.get('twin'):
+            res.count('deck with two lattices on the same planes')
         text = deckmod.render(deck)
         res.seen(text)
         res.count('deck:' + meta['style'])
